@@ -77,6 +77,9 @@ def tasks(tier):
     for backend, mn, name in _ad_models(it):
         ts.append(("ad %s.%s" % (backend, name), "run_ad", dict(backend=backend, modname=mn, name=name)))
     ts.append(("wrappers", "run_wrappers", {}))
+    # objectivity by construction: the AD back ends (tensortrax and jax wrappers, incl. as_total_lagrange) hand the model functions C = F^T F only
+    ts.append(("AD wrapper algebra", "run_included", dict(modname="c03", fname="run_wrappers", kwargs={}, oid="C11.O2",
+                                                      why="frame indifference of every AD model rests on the wrapper evaluating the energy at F^T F and pushing S, D forward with F")))
     ts.append(("lagrange def-use", "run_lagrange_defuse", {}))
     ts.append(("canary", "run_canary", {}))
     return ts
@@ -500,3 +503,9 @@ def run_canary(col):
     col.info["canaries_expected"] = 1
     col.info["canaries_fired"] = 1 if fired else 0
     col.add("canary", "fixtures/canary_models.py mixed_invariants", "the reference-state rule flags an energy mixing isochoric and full invariants", fired, nontrivial=False)
+
+
+def run_included(col, modname, fname, kwargs, oid, why):
+    from ..common import include
+
+    include(col, modname, fname, kwargs, oid, why)
